@@ -95,6 +95,27 @@ def statements(tab):
     return st
 
 
+class _FailingStream(io.StringIO):
+    """A user's output stream that breaks after a few writes (a closed pipe, a full disk)."""
+
+    def __init__(self, ok_writes):
+        super().__init__()
+        self.left = ok_writes
+
+    def write(self, s):
+        if self.left <= 0:
+            raise OSError("broken pipe (harness: the stream the user supplied failed)")
+        self.left -= 1
+        return super().write(s)
+
+
+def _swallow(fn):
+    try:
+        return fn()
+    except RuntimeError:
+        return None
+
+
 def check(ctx, tab, opts, p=None, workload="gen", which=None):
     from decaylanguage import DecFileParser  # noqa: PLC0415
 
@@ -123,6 +144,32 @@ def check(ctx, tab, opts, p=None, workload="gen", which=None):
         mother = tab["pdg_name"]
         ctx.hit("pdg-name-mother")
     before = snapshot.tables(p)
+    if ctx.rng.random() < 0.12:
+        # earlier on the same object: the same print abandoned half-way -- the user's output stream failed on a write, or the call was interrupted at a
+        # random line of the library's code -- and possibly a refused option combination.  What is printed next is the whole table, as asked for.
+        how = ctx.rng.choice(["stream-fails", "abandoned", "refused"])
+        ctx.hit("printed-again-after:" + how)
+        wit["earlier_on_the_same_object"] = how
+        try:
+            if how == "stream-fails":
+                with contextlib.redirect_stdout(_FailingStream(ctx.rng.randint(0, 6))):
+                    p.print_decay_modes(mother, **kw)
+            elif how == "abandoned":
+                from .. import trace  # noqa: PLC0415
+
+                fp = trace.Failpoint.get()
+
+                def quiet():
+                    with contextlib.redirect_stdout(io.StringIO()):
+                        p.print_decay_modes(mother, **kw)
+
+                _, n = fp.count(lambda: _swallow(quiet))
+                fp.inject(ctx.rng.randint(1, max(1, n)), lambda: _swallow(quiet))
+            else:
+                with contextlib.redirect_stdout(io.StringIO()):
+                    p.print_decay_modes(mother, **{**kw, "normalize": True, "scale": 0.5})
+        except Exception:  # noqa: BLE001, S110   what the earlier call raised is not what is judged here
+            pass
     buf = io.StringIO()
     raised = None
     try:
